@@ -79,6 +79,9 @@ pub struct LevelCfg {
     pub p_wide: usize,
     /// percent chance per position of a registration attempt that fails and is caught
     pub p_failed: usize,
+    /// percent chance that a barrier position holds a long run of `add_barrier` calls whose length
+    /// sits at a counter-width boundary (255..257, 511..513, rarely 65535..65537)
+    pub p_barrier_run: usize,
 }
 
 impl LevelCfg {
@@ -106,6 +109,7 @@ impl LevelCfg {
             p_multi: 25,
             p_wide: 1,
             p_failed: 2,
+            p_barrier_run: 2,
         }
     }
 }
@@ -281,16 +285,26 @@ impl<'r> Gen<'r> {
         let mut tl_left = ntl;
         for i in 0..n {
             if c.p_failed > 0 && self.rng.chance(c.p_failed, 100) {
-                items.push(Item::Failed(self.rng.below(2) as u8));
+                let k = self.failed_kind();
+                items.push(Item::Failed(k));
             }
             if i > 0 && self.rng.chance(c.p_barrier, 100) {
-                let reps = if c.edge_barriers && self.rng.chance(1, 4) { 2 } else { 1 };
+                let reps = if c.p_barrier_run > 0 && self.rng.chance(c.p_barrier_run, 100) {
+                    // as many barriers as a narrow counter holds, one less, one more
+                    let base = *self.rng.pick(&[256usize, 256, 256, 512, 512, 768, 65536]);
+                    base + self.rng.below(3) - 1
+                } else if c.edge_barriers && self.rng.chance(1, 4) {
+                    2
+                } else {
+                    1
+                };
                 for _ in 0..reps {
                     items.push(Item::Barrier);
                 }
                 // the call right after a barrier is rejected now and then
                 if c.p_failed > 0 && self.rng.chance(1, 6) {
-                    items.push(Item::Failed(self.rng.below(2) as u8));
+                    let k = self.failed_kind();
+                    items.push(Item::Failed(k));
                 }
                 for x in named.iter_mut() {
                     x.1 = false;
@@ -374,6 +388,15 @@ impl<'r> Gen<'r> {
             }
         }
         Plan { items }
+    }
+
+    /// which way a caught registration attempt fails (see `Item::Failed`)
+    fn failed_kind(&mut self) -> u8 {
+        if self.rng.chance(3, 5) {
+            self.rng.below(2) as u8
+        } else {
+            (2 + self.rng.below(4)) as u8 | if self.rng.chance(1, 2) { FAILED_NAMED } else { 0 }
+        }
     }
 
     fn tl_spec(&mut self, c: &LevelCfg) -> TlSpec {
